@@ -80,6 +80,9 @@ func stateDiff() string {
 	cur := mxj.VerifState()
 	var d []string
 	for i := range cur {
+		if strings.Contains(cur[i], "=aux:") {
+			continue // tables, caches, pools: not part of the option state
+		}
 		if i >= len(baselineState) || cur[i] != baselineState[i] {
 			d = append(d, cur[i])
 		}
